@@ -484,6 +484,55 @@ func c20TwoInstances(g *rand.Rand, log *[]string) (string, error) {
 	if r, err := b.Do(2*time.Second, bs("PING")...); err != nil || string(r.Str) != "PONG" {
 		return fmt.Sprintf("a client of emulator B was disconnected by CLIENT KILL issued on emulator A (%v)", err), nil
 	}
+	// an emulator with its own configuration (CLIENT SETINFO disabled, a dispatch hook on ECHO) changes nothing
+	// for the others, neither while it runs nor for a successor on its port
+	pcfg := freePort()
+	if r, err := srv.Ctl(fmt.Sprintf("STARTCFG 2 %d", pcfg), 10*time.Second); err != nil || !strings.HasPrefix(r, "STARTED") {
+		return "", fmt.Errorf("STARTCFG: %v %q", err, r)
+	}
+	plain := func(c *Conn, who string) string {
+		if r, err := c.Do(2*time.Second, bs("CLIENT", "SETINFO", "LIB-NAME", "x")...); err != nil || r.Kind == '-' {
+			return fmt.Sprintf("%s: CLIENT SETINFO answers %v although only another emulator in the process was configured without it", who, r)
+		}
+		if r, err := c.Do(2*time.Second, bs("ECHO", "hi")...); err != nil || string(r.Str) != "hi" {
+			return fmt.Sprintf("%s: ECHO hi answers %v: the dispatch hook of another emulator was applied", who, r)
+		}
+		return ""
+	}
+	if cc, err := dial(pcfg); err == nil {
+		if r, _ := cc.Do(2*time.Second, bs("CLIENT", "SETINFO", "LIB-NAME", "x")...); r == nil || r.Kind != '-' {
+			cc.Close()
+			return fmt.Sprintf("the emulator configured without CLIENT SETINFO serves it: %v", r), nil
+		}
+		cc.Close()
+	}
+	for _, x := range []struct {
+		c   *Conn
+		who string
+	}{{a, "emulator A (connected before)"}, {b, "emulator B (connected before)"}} {
+		if why := plain(x.c, x.who); why != "" {
+			return why, nil
+		}
+	}
+	if nb, err := dial(pb); err == nil {
+		why := plain(nb, "emulator B (new connection)")
+		nb.Close()
+		if why != "" {
+			return why, nil
+		}
+	}
+	srv.Ctl("CLOSE 2", 10*time.Second)
+	if r, err := srv.Ctl(fmt.Sprintf("START 3 %d", pcfg), 10*time.Second); err != nil || !strings.HasPrefix(r, "STARTED") {
+		return fmt.Sprintf("a plain successor on the port of the configured emulator did not start: %v %q", err, r), nil
+	}
+	if sc, err := dial(pcfg); err == nil {
+		why := plain(sc, "plain successor on the configured emulator's port")
+		sc.Close()
+		if why != "" {
+			return why, nil
+		}
+	}
+	srv.Ctl("CLOSE 3", 10*time.Second)
 	// closing A leaves B serving
 	if r, err := srv.Ctl("CLOSE 0", 10*time.Second); err != nil || !strings.HasPrefix(r, "CLOSED") {
 		return fmt.Sprintf("Close() of emulator A did not return (%q %v) %s", r, err, tail(srv.Stderr(), 300)), nil
